@@ -427,3 +427,6 @@ for _p in ("C01", "C02", "C03", "C05", "C06", "C08", "C13", "C14", "C15", "C18",
     _extend(_p, _CONN_GROUP)
     if LIB_IO[0] not in PLAN[_p]["trusted_base"]:
         PLAN[_p]["trusted_base"] = PLAN[_p]["trusted_base"] + LIB_IO
+# the constructor of H2Protocol (settings, decoder limit, the priority tree's capacity) with the HTTP/2 group
+for _p in ("C01", "C02", "C03", "C04", "C05", "C07", "C08", "C09", "C10", "C13", "C15", "C18"):
+    _extend(_p, [HP + "__init__", H1P + "__init__"])
